@@ -25,3 +25,10 @@ CASES = [
     m("full space generator drops a mode", "C10-C", "quantarhei/builders/aggregate_states.py", "            return numpy.ndindex(tuple(vibmax))", "            return numpy.ndindex(tuple(vibmax[1:]))"),
     t("generator factored", H, "        Dd_large = (dd_*ad-numpy.conj(dd_)*aa)/numpy.sqrt(2.0)", "        Dd_large = dd_*ad/numpy.sqrt(2.0)-numpy.conj(dd_)*aa/numpy.sqrt(2.0)"),
 ]
+
+CASES += [
+    {"name": "overlap remembered per pair of state objects", "kind": "mutant", "rule": "C10-C", "edits": [
+        (A, "        res = 1.0\n        for kk in range(len(sta1)):\n            smod1 = sta1[kk]",
+         "        if not hasattr(self, \"_fcm\"):\n            self._fcm = {}\n        if (id(state1), id(state2)) in self._fcm:\n            return self._fcm[(id(state1), id(state2))]\n        res = 1.0\n        for kk in range(len(sta1)):\n            smod1 = sta1[kk]", 1),
+        (A, "            res = res*rs\n\n        return res", "            res = res*rs\n\n        self._fcm[(id(state1), id(state2))] = res\n        return res", 1)]},
+]
